@@ -2118,11 +2118,55 @@ def run_cases(ctx: Ctx, cases, out: Outcome):
         out.notes.append("Lean model unavailable: oracle only")
 
 
+def random_motion_stream(ctx: Ctx, out: Outcome):
+    """The library's OWN generator of rigid copies (Molecule.scramble with do_rotate=True / do_shift=True and its `deflection`
+    argument, util.random_rotation_matrix): the copy it makes must be a rigid image of the reference (every interatomic distance
+    kept, handedness kept), the motion it reports a proper rotation, and aligning the copy back must give RMSD ~ 0 — for every
+    deflection in (0, 1], not only the default 1.0.  Oracle only (the motion is drawn by numpy's global generator, seeded per case)."""
+    import qcelemental as qcel
+
+    rng = ctx.rng
+    for k in range(ctx.scale(60, 600)):
+        defl = rng.choice([1.0, 1.0, 0.75, 0.5, 0.3, 0.1, 0.02])
+        seed = rng.randrange(2**31)
+        n = rng.randint(3, 7)
+        G = gen_geometry(rng, "generic", n)
+        syms = [rng.choice(["H", "C", "N", "O", "F"]) for _ in range(n)]
+        case = {"route": "scramble_random", "deflection": defl, "np_seed": seed, "symbols": syms, "R": hexl(G)}
+        out.evaluations += 1
+        out.count(f"random_motion:deflection={defl}")
+        out.nontrivial(repr((defl, seed, case["R"][0])))
+        try:
+            np.random.seed(seed)
+            M = np.asarray(qcel.util.random_rotation_matrix(deflection=defl))
+            if float(np.max(np.abs(M @ M.T - np.eye(3)))) > 1e-10 or abs(float(np.linalg.det(M)) - 1.0) > 1e-10:
+                out.violations.append(Finding("oracle:random_rotation_not_proper", {"case": case}, observed={"det": float(np.linalg.det(M)), "orth_defect": float(np.max(np.abs(M @ M.T - np.eye(3))))},
+                                              expected="orthogonal, det +1", detail=f"random_rotation_matrix(deflection={defl}) is not a proper rotation"))
+                continue
+            ref = qcel.models.Molecule(symbols=syms, geometry=G, fix_com=True, fix_orientation=True)
+            np.random.seed(seed)
+            cmol, sdata = ref.scramble(do_shift=True, do_rotate=True, do_resort=False, deflection=defl, do_mirror=False, do_test=False, verbose=0)
+            Rg, Cg = np.array(ref.geometry), np.array(cmol.geometry)
+            D0 = np.sqrt(((Rg[:, None] - Rg[None]) ** 2).sum(-1))
+            D1 = np.sqrt(((Cg[:, None] - Cg[None]) ** 2).sum(-1))
+            if float(np.max(np.abs(D0 - D1))) > 1e-8:
+                out.violations.append(Finding("oracle:scramble_not_rigid", {"case": case}, observed=float(np.max(np.abs(D0 - D1))), expected="<= 1e-8 bohr",
+                                              detail=f"Molecule.scramble(do_rotate=True, deflection={defl}) does not return a rigid copy: interatomic distances changed"))
+                continue
+            amol, adata = cmol.align(ref, atoms_map=True, mols_align=False, run_mirror=False, verbose=0)
+            if float(adata["rmsd"]) > 1e-6:
+                out.violations.append(Finding("oracle:recovery_rmsd", {"case": case}, observed=float(adata["rmsd"]), expected="~0",
+                                              detail="the library's own rigid copy is not aligned back onto the reference"))
+        except Exception as e:  # noqa
+            out.violations.append(Finding("oracle:raised", {"case": case}, observed=err_class(e) + ": " + str(e)[:200], detail="random_rotation_matrix / scramble / align raised on an in-scope input"))
+
+
 def run(ctx: Ctx) -> Outcome:
     out = Outcome()
     _install()
     cases = list(gen_cases(ctx))
     run_cases(ctx, cases, out)
+    random_motion_stream(ctx, out)
     out.exhaustive = False
     out.notes.append("all blocks sampled from VERIF_SEED; motions are exact rational rotations from integer quaternions")
     d = out.distribution
@@ -2144,6 +2188,9 @@ def run(ctx: Ctx) -> Outcome:
 def replay(ctx: Ctx, case) -> Outcome:
     out = Outcome()
     c = case["case"] if isinstance(case, dict) and "case" in case else case
+    if isinstance(c, dict) and c.get("route") == "scramble_random":
+        random_motion_stream(ctx, out)  # the stream is cheap and seeded: re-run it whole
+        return out
     run_cases(ctx, [dict(c)], out)
     return out
 
